@@ -8,5 +8,10 @@ open Chess.Props.C08
 #print axioms mem_rookMoves
 #print axioms mem_bishopMoves
 #print axioms table_lengths
+#print axioms generator_fill_sound
+#print axioms generator_fill_frame
+#print axioms generator_blockers_complete
+#print axioms generator_rook
+#print axioms generator_bishop
 #print axioms Chess.Props.C08.checkRook_all
 #print axioms Chess.Props.C08.checkBishop_all
